@@ -114,6 +114,76 @@ def make_items(ctx, n):
     return items
 
 
+def spec_items(ctx, quick):
+    """R: behaviours of Transformers.tla / TransformersImager.tla themselves (TLC -simulate, one file per random behaviour): the operation and the data
+    set of every step are read off the state variables and the history is replayed on a real estimator"""
+    rng = ctx.rng
+    items = []
+    OP = {"fit": 1, "transform": 2, "fit_transform": 3}
+    r, behaviours = tlc.simulate_behaviours("Transformers", dict(MaxLen=6, FitKeepsFirst=False), 150 if quick else 4000, 7, ctx.seed + 5,
+                                            invariants=["RefitForgets", "FitTransformIsFitThenTransform", "TransformUsesLastFit"])
+    ctx.model("Transformers random behaviours (simulation mode)", r)
+    DATA = [[0, 4], [2, 10], [1, 6]]
+    for t, states in enumerate(behaviours):
+        ops = []
+        for st in states[1:]:
+            X = st["lastFit"] if st["lastOp"] in ("fit", "fit_transform") else st["out"][2]
+            ops.append([OP[st["lastOp"]], DATA.index(list(X))])
+        if not ops:
+            continue
+        e = E[t % len(E)]
+        hom = rng.choice([0, 1])
+        us = None if states[0]["ustart"] == -1 else states[0]["ustart"]
+        ue = None if states[0]["ustop"] == -1 else states[0]["ustop"]
+        # collections of two diagrams; the one of the selected degree spans exactly <<min birth, max death>> of the model's data set
+        sets = []
+        for lo, hi in DATA:
+            sel = [[lo, lo + 1], [hi - 1, hi], [lo, hi - 1]]
+            other = [[7, 9], [20, 30]]
+            sets.append([sel, other] if hom == 0 else [other, sel])
+        fsets = [[[[e.f(b), e.f(d)] for b, d in dg] for dg in coll] for coll in sets]
+        job = dict(kind="landscaper", datasets=fsets, ops=ops, hom_deg=hom, num_steps=rng.choice([5, 9]), flatten=rng.random() < 0.5,
+                   start=None if us is None else e.f(us), stop=None if ue is None else e.f(ue))
+        tlads = [[lo, hi, [i + 1]] for i, (lo, hi) in enumerate(DATA)]
+        ufix = [NOTFIXED if us is None else us, NOTFIXED if ue is None else ue]
+        items.append(dict(job=job, emb=e, ufix=ufix, tladatasets=tlads, desc=dict(kind="landscaper", sets=sets, ops=ops, fixed=[us, ue], hom=hom, emb=e.name, job=job, from_spec=1)))
+    r, behaviours = tlc.simulate_behaviours("TransformersImager", dict(MaxLen=6, SkipPersOnRefit=False), 150 if quick else 4000, 7, ctx.seed + 6,
+                                            invariants=["RefitForgets", "FitTransformIsFitThenTransform", "ElementByElementInOrder", "CoversData"])
+    ctx.model("TransformersImager random behaviours (simulation mode)", r)
+    BOXES = [([0, 8, 2, 6], 2), ([4, 14, 0, 10], 1), ([2, 6, 2, 12], 3)]      # (bounding box in half ticks, number of diagrams)
+    for t, states in enumerate(behaviours):
+        ops = []
+        for st in states[1:]:
+            X = st["lastFit"] if st["lastOp"] in ("fit", "fit_transform") else None
+            if X is None:      # transform: the data set is identified by its element keys
+                keys = [o[3] for o in st["out"]]
+                di = {1: 0, 3: 1, 4: 2}[keys[0]]
+            else:
+                di = [b for b, _ in BOXES].index(list(X["box"]))
+            ops.append([OP[st["lastOp"]], di])
+        if not ops:
+            continue
+        e = E[t % len(E)]
+        sets = []
+        for (b0, b1, p0, p1), cnt in BOXES:
+            b0, b1, p0, p1 = b0 // 2, b1 // 2, p0 // 2, p1 // 2       # whole ticks, (birth, persistence)
+            corner = [[b0, p1], [b1, max(p0, 1) if p0 else p0 + 0]]
+            if p0 == 0:
+                corner = [[b0, p1], [b1, 1], [b0, 0]]       # a zero-persistence pair carries the lower edge of the box
+            colls = [corner] + [[[(b0 + b1) // 2, max(1, (p0 + p1) // 2)]] for _ in range(cnt - 1)]
+            sets.append(colls)
+        skew = int(rng.random() < 0.6)
+        asbd = lambda pts: [[b, b + p] for b, p in pts] if skew else pts
+        fsets = [[[[e.f(x), e.f(y) if skew else float(e.s * y)] for x, y in asbd(dg)] for dg in coll] for coll in sets]
+        ps = states[0]["ps"] // 2
+        job = dict(kind="imager", datasets=fsets, ops=ops, birth_range=[e.f(0), e.f(2 * ps)], pers_range=[e.f(0), e.f(2 * ps)], pixel_size=e.f(ps), sigma=float(e.f(1)) ** 2,
+                   single_as_array=rng.random() < 0.5, skew=skew, njobs=[(rng.choice([0, 0, 2]) if op == 2 else 0) for op, _ in ops])
+        tlads = [[0, 0, [1000 * i + j for j in range(len(coll))]] for i, coll in enumerate(sets)]
+        items.append(dict(job=job, emb=e, ufix=[NOTFIXED, NOTFIXED], tladatasets=tlads, desc=dict(kind="imager", sets=sets, ops=ops, fixed=["pixel_size=%d" % ps], emb=e.name, job=job, from_spec=1)))
+    ctx.extra["spec_generated_histories"] = len(items)
+    return items
+
+
 def run(ctx):
     quick = ctx.tier == "quick"
     ctx.rule = RULE
@@ -128,6 +198,7 @@ def run(ctx):
     r = tlc.run_tlc("TransformersImager", workers=2, constants=dict(MaxLen=3, SkipPersOnRefit=True), invariants=["RefitForgets"], heap="2g")
     ctx.model("TransformersImager with a fit that skips the persistence range on refit (expected to fail RefitForgets)", r, expect_violation="RefitForgets")
     validate(ctx, make_items(ctx, 600 if quick else 6000), "V")
+    validate(ctx, spec_items(ctx, quick), "R")
 
 
 def replay(ctx, rec):
